@@ -80,7 +80,7 @@ def add_conditions(rng, spec, pressures):
         return {"attr": "status", "value": rng.choice(["OPEN", "CLOSED"])}
     for t in spec["tanks"]:
         lv = t["init_level"]
-        fam = rng.choice(["hysteresis", "two", "conflict", "single", "hysteresis"])
+        fam = rng.choice(["hysteresis", "two", "conflict", "single", "hysteresis"] + (["setting_conflict"] * 3 if spec["valves"] else []))
         ln, kind = rng.choice(links)
         tattr = rng.choice(["level", "level", "pressure", "head"])
         off = t["elevation"] if tattr == "head" else 0.0
@@ -98,6 +98,18 @@ def add_conditions(rng, spec, pressures):
             for thr in (hi, round(hi + d, 3)):
                 l2, k2 = rng.choice(links)
                 spec["cond"].append(dict({"node": t["name"], "nattr": tattr, "op": ">", "thr": thr + off, "link": l2, "priority": pr()}, **command(l2, k2)))
+        elif fam == "setting_conflict":
+            # a very-low-priority SETTING control (whose implicit companion re-activates the valve with the same priority) and a status control
+            # of higher priority on the same valve, both true at once: the status command must win
+            v = rng.choice(spec["valves"])
+            up = rng.random() < 0.5
+            thr1 = (hi if up else lo) + off
+            thr2 = round((hi + 0.1) if up else (lo - 0.1), 2) + off
+            op = ">" if up else "<"
+            spec["cond"].append({"node": t["name"], "nattr": tattr, "op": op, "thr": thr1, "link": v["name"], "attr": "setting",
+                                 "value": round(v["setting"] * rng.choice([0.5, 0.8, 1.5]), 4), "priority": 0})
+            spec["cond"].append({"node": t["name"], "nattr": tattr, "op": op, "thr": thr2, "link": v["name"], "attr": "status",
+                                 "value": rng.choice(["CLOSED", "CLOSED", "OPEN"]), "priority": rng.choice([1, 3, 5])})
         elif fam == "conflict":
             # both conditions hold at once on the same link with opposite commands
             p1 = pr()
@@ -393,8 +405,10 @@ def check(run, replay=None):
                 if c["attr"] == "status" and c["value"] == "ACTIVE" and kind == "ValveK" and user == 2:
                     run.count("exception: valve commanded ACTIVE follows its own rule")
                     continue
-                rivals = [c2 for k2, c2 in enumerate(spec["cond"]) if k2 != k and c2["link"] == c["link"] and c2["attr"] == c["attr"] and c2["value"] != c["value"]
-                          and c2["priority"] >= c["priority"] and tv[k2] is not False]
+                rivals = [c2 for k2, c2 in enumerate(spec["cond"]) if k2 != k and c2["link"] == c["link"] and c2["priority"] >= c["priority"] and tv[k2] is not False
+                          and ((c2["attr"] == c["attr"] and c2["value"] != c["value"])
+                               # a setting control carries an implicit "status := ACTIVE" command of its own priority
+                               or (c2["attr"] == "setting" and c["attr"] == "status" and c["value"] != "ACTIVE"))]
                 if rivals:
                     run.count("exception: conflicting control of >= priority")
                     continue
